@@ -2,6 +2,7 @@ import Lean.Data.Json
 import MW.Chain.World
 import MW.Proto.Msgs
 import MW.Treasury.Model
+import MW.Staking.Migrate
 /-!
 # JSON glue of the model driver: serde forms of the contract messages in, canonical results out.
 Not part of the verified model; part of the correspondence machinery (trusted base).
@@ -409,5 +410,143 @@ def dumpTreasury (s : TState) : Json :=
   Json.mkObj [("config", cfgJ), ("admin", jOpt Json.str s.own.admin), ("pending_owner", jOpt Json.str s.own.pending),
               ("owner_min_time", jOpt jStrNat s.own.minTime),
               ("version", Json.mkObj [("contract", .str s.version.1), ("version", .str s.version.2)])]
+
+/-! ## migrations -/
+
+def optStrList (j : Json) (k : String) : P (Option (List String)) := optMap j k strList
+
+def parseStatusPkt (j : Json) : P PktStatus := do
+  match (← asStr j) with
+  | "sent" => pure .sent
+  | "ack_success" => pure .ackSuccess
+  | "ack_failure" => pure .ackFailure
+  | "timed_out" => pure .timedOut
+  | _ => throw "bad packet status"
+
+def parseCfg0418 (j : Json) : P Cfg0418 := do
+  let pf ← reqField j "protocol_fee_config"
+  let ma ← reqField j "multisig_address_config"
+  pure { nativeTokenDenom := ← (← reqField j "native_token_denom") |> asStr
+         lstDenom := ← (← reqField j "liquid_stake_token_denom") |> asStr
+         treasury := ← (← reqField j "treasury_address") |> asStr
+         operators := ← optStrList j "operators"
+         monitors := ← optStrList j "monitors"
+         validators := ← (← reqField j "validators") |> strList
+         batchPeriod := ← (← reqField j "batch_period") |> asU64
+         unbondingPeriod := ← (← reqField j "unbonding_period") |> asU64
+         fee := ← (← reqField pf "dao_treasury_fee") |> asU128
+         staker := ← (← reqField ma "staker_address") |> asStr
+         rewardCollector := ← (← reqField ma "reward_collector_address") |> asStr
+         minStake := ← (← reqField j "minimum_liquid_stake_amount") |> asU128
+         channel := ← (← reqField j "ibc_channel_id") |> asStr
+         stopped := ← (← reqField j "stopped") |> asBool
+         oracleContract := ← optMap j "oracle_contract_address" asStr
+         oracleContractV2 := ← optMap j "oracle_contract_address_v2" asStr
+         oracle := ← optMap j "oracle_address" asStr }
+
+def parseCfg0420 (j : Json) : P Cfg0420 := do
+  let pf ← reqField j "protocol_fee_config"
+  let ma ← reqField j "multisig_address_config"
+  pure { nativeTokenDenom := ← (← reqField j "native_token_denom") |> asStr
+         lstDenom := ← (← reqField j "liquid_stake_token_denom") |> asStr
+         treasury := ← (← reqField j "treasury_address") |> asStr
+         monitors := ← optStrList j "monitors"
+         validators := ← (← reqField j "validators") |> strList
+         batchPeriod := ← (← reqField j "batch_period") |> asU64
+         unbondingPeriod := ← (← reqField j "unbonding_period") |> asU64
+         fee := ← (← reqField pf "dao_treasury_fee") |> asU128
+         staker := ← (← reqField ma "staker_address") |> asStr
+         rewardCollector := ← (← reqField ma "reward_collector_address") |> asStr
+         minStake := ← (← reqField j "minimum_liquid_stake_amount") |> asU128
+         channel := ← (← reqField j "ibc_channel_id") |> asStr
+         stopped := ← (← reqField j "stopped") |> asBool
+         oracle := ← optMap j "oracle_address" asStr
+         sendFeesToTreasury := ← (← reqField j "send_fees_to_treasury") |> asBool }
+
+def parseCfgCur (j : Json) : P Config := do
+  let n ← reqField j "native_chain_config"
+  let p ← reqField j "protocol_chain_config"
+  let f ← reqField j "protocol_fee_config"
+  pure { native := { accountPrefix := ← (← reqField n "account_address_prefix") |> asStr
+                     validatorPrefix := ← (← reqField n "validator_address_prefix") |> asStr
+                     tokenDenom := ← (← reqField n "token_denom") |> asStr
+                     validators := ← (← reqField n "validators") |> strList
+                     unbondingPeriod := ← (← reqField n "unbonding_period") |> asU64
+                     staker := ← (← reqField n "staker_address") |> asStr
+                     rewardCollector := ← (← reqField n "reward_collector_address") |> asStr }
+         proto := { accountPrefix := ← (← reqField p "account_address_prefix") |> asStr
+                    channel := ← (← reqField p "ibc_channel_id") |> asStr
+                    ibcDenom := ← (← reqField p "ibc_token_denom") |> asStr
+                    minStake := ← (← reqField p "minimum_liquid_stake_amount") |> asU128
+                    oracle := ← optMap p "oracle_address" asStr }
+         feeCfg := { fee := ← (← reqField f "dao_treasury_fee") |> asU128, treasury := ← optMap f "treasury_address" asStr }
+         lstDenom := ← (← reqField j "liquid_stake_token_denom") |> asStr
+         monitors := ← (← reqField j "monitors") |> strList
+         batchPeriod := ← (← reqField j "batch_period") |> asU64
+         stopped := ← (← reqField j "stopped") |> asBool }
+
+def jCfg0420 (c : Cfg0420) : Json :=
+  Json.mkObj [("native_token_denom", .str c.nativeTokenDenom), ("liquid_stake_token_denom", .str c.lstDenom),
+    ("treasury_address", .str c.treasury), ("monitors", jOpt (fun l => Json.arr (l.map Json.str).toArray) c.monitors),
+    ("validators", Json.arr (c.validators.map Json.str).toArray), ("batch_period", jNat c.batchPeriod),
+    ("unbonding_period", jNat c.unbondingPeriod),
+    ("protocol_fee_config", Json.mkObj [("dao_treasury_fee", jStrNat c.fee)]),
+    ("multisig_address_config", Json.mkObj [("staker_address", .str c.staker), ("reward_collector_address", .str c.rewardCollector)]),
+    ("minimum_liquid_stake_amount", jStrNat c.minStake), ("ibc_channel_id", .str c.channel), ("stopped", .bool c.stopped),
+    ("oracle_address", jOpt Json.str c.oracle), ("send_fees_to_treasury", .bool c.sendFeesToTreasury)]
+
+def parseMigrateMsg (j : Json) : P MigrateMsg := do
+  let (k, v) ← variant j
+  match k with
+  | "v0_4_18_to_v0_4_20" => do
+    onlyFields v ["send_fees_to_treasury"]
+    pure (.v0418 (← (← reqField v "send_fees_to_treasury") |> asBool))
+  | "v0_4_20_to_v1_0_0" => do
+    onlyFields v ["native_account_address_prefix", "native_validator_address_prefix", "native_token_denom",
+                  "protocol_account_address_prefix"]
+    pure (.v0420 (← (← reqField v "native_account_address_prefix") |> asStr)
+      (← (← reqField v "native_validator_address_prefix") |> asStr)
+      (← (← reqField v "native_token_denom") |> asStr)
+      (← (← reqField v "protocol_account_address_prefix") |> asStr))
+  | "v1_0_0_to_v1_1_0" => do onlyFields v []; pure .v100
+  | _ => throw s!"unknown variant {k}"
+
+def parseKV {α} (j : Json) (f : Json → P α) : P (List (Nat × α)) := do
+  (← asArr j).toList.mapM fun e => do
+    let a ← asArr e
+    match a.toList with
+    | [k, v] => do pure (← asU64 k, ← f v)
+    | _ => throw "expected [key, value]"
+
+def parseLegacyPkt (j : Json) : P LegacyPkt := do
+  pure { seq := ← (← reqField j "sequence") |> asU64, amount := ← (← reqField j "amount") |> asU128,
+         status := ← (← reqField j "status") |> parseStatusPkt }
+
+def parseMStore (j : Json) : P MStore := do
+  let version : Option (String × String) ← match optField j "version" with
+    | none => pure none
+    | some v => do pure (some (← (← reqField v "contract") |> asStr, ← (← reqField v "version") |> asStr))
+  let layout := match j.getObjVal? "layout" with | .ok (.str s) => s | _ => ""
+  let cfgJ ← reqField j "config"
+  let cfg : Option CfgLayout := match layout with
+    | "0418" => (parseCfg0418 cfgJ).toOption.map CfgLayout.c0418
+    | "0420" => (parseCfg0420 cfgJ).toOption.map CfgLayout.c0420
+    | "cur" => (parseCfgCur cfgJ).toOption.map CfgLayout.cur
+    | _ => none
+  let li ← match optField j "linflight" with | some x => parseKV x parseLegacyPkt | none => pure []
+  let lw ← match optField j "lwaiting" with
+    | some x => parseKV x (fun v => do (← reqField v "amount") |> asU128)
+    | none => pure []
+  pure { version, cfg, linflight := li, lwaiting := lw }
+
+def dumpMStore (st : MStore) : Json :=
+  Json.mkObj [
+    ("version", jOpt (fun v => Json.mkObj [("contract", .str v.1), ("version", .str v.2)]) st.version),
+    ("config", match st.cfg with
+      | some (.c0420 c) => jCfg0420 c
+      | some (.cur c) => jConfig c
+      | _ => .null),
+    ("inflight", Json.arr (st.inflight.map fun (k, p) => Json.arr #[jNat k, jPacket p]).toArray),
+    ("waiting", Json.arr (st.waiting.map fun (k, w) => Json.arr #[jNat k, jWaiting w]).toArray)]
 
 end Driver
